@@ -236,10 +236,13 @@ func runMeta(c *Case, tree *Tree) string {
 		if err != nil {
 			return "cerr"
 		}
+		if mode == "cnt" && expr == c.Expr {
+			return valueStr(e.Evaluate(tree.At(ctx, !c.NoNS)))
+		}
 		switch mode {
 		case "val":
 			return valueStr(e.Evaluate(tree.At(ctx, !c.NoNS)))
-		case "seq", "set":
+		case "seq", "set", "rev", "cnt":
 			rs, ok := drain(e.Select(tree.At(ctx, !c.NoNS)), maxResults)
 			if !ok {
 				return "diverge"
